@@ -360,32 +360,31 @@ class FmtStr:
         the original FmtStr at start and end.
         If end is provided, new_str will replace the substring self.s[start:end-1].
         """
-        if len(new_str) == 0:
-            return self
-        new_fs = new_str if isinstance(new_str, FmtStr) else fmtstr(new_str)
-        assert len(new_fs.chunks) > 0, (new_fs.chunks, new_fs)
-        new_components = []
-        inserted = False
         if end is None:
             end = start
+        if len(new_str) == 0 and end <= start:
+            return self
+        new_fs = new_str if isinstance(new_str, FmtStr) else fmtstr(new_str)
+        new_components = []
+        inserted = False
         tail = None
 
         for bfs, bfs_start, bfs_end in zip(
             self.chunks, self.divides[:-1], self.divides[1:]
         ):
-            if end == bfs_start == 0:
+            if end == bfs_start == 0 and not inserted:
                 new_components.extend(new_fs.chunks)
                 new_components.append(bfs)
                 inserted = True
 
-            elif bfs_start <= start < bfs_end:
+            elif bfs_start <= start < bfs_end and not inserted:
                 divide = start - bfs_start
                 head = Chunk(bfs.s[:divide], atts=bfs.atts)
                 tail = Chunk(bfs.s[end - bfs_start :], atts=bfs.atts)
                 new_components.extend([head] + new_fs.chunks)
                 inserted = True
 
-                if bfs_start < end < bfs_end:
+                if end < bfs_end:
                     tail = Chunk(bfs.s[end - bfs_start :], atts=bfs.atts)
                     new_components.append(tail)
 
